@@ -3,7 +3,7 @@
    getIthLeafBytes over the rank/select bitmaps and VLenArrays of Bits.v) return what
    the tree model returns (Model.getid / Model.get).  Composition of the L3 refinement
    (Bits*Proofs) with the id-loop simulation (FlatProofs). *)
-From Slim Require Import Base Keys KeysProofs ListFacts Model TrieInv BuildProofs QueryProofs ConsistProofs
+From Slim Require Import Base Keys KeysProofs ListFacts Model TrieInv BuildProofs QueryProofs ConsistProofs SearchProofs
   Stat StatProofs GetIntProofs Flat FlatProofs BitmapRank BitmapRank2 Bits BitsWfProofs BitsFlatProofs Msg.
 From Coq Require Import Sorting.Sorted ZifyNat ZifyN ZifyBool.
 
@@ -456,4 +456,75 @@ Proof.
         destruct lc as [ml|], rc as [mr|]; cbn [oid option_map]; rewrite ?HRm, ?HLm by assumption; reflexivity.
     + destruct lc as [ml|], rc as [mr|]; cbn [oid option_map]; rewrite ?HRm, ?HLm by assumption; reflexivity.
   - destruct lc as [ml|], rc as [mr|]; cbn [oid option_map]; rewrite ?HRm, ?HLm by assumption; reflexivity.
+Qed.
+
+(* ---------- leaf values, Search and RangeGet over the message ---------- *)
+Lemma mleaf_value_ok o keys vals T r lidx m vs c :
+  Built o keys vals T r lidx -> build o keys vals = Ok T -> encode_trie T = Val m -> init_vars m = Val vs ->
+  In c (subtrees r) -> mleaf_value m vs (tree_id c) = leaf_value T c.
+Proof.
+  intros B Hb Em Ev Hsub. pose proof (bt_root _ _ _ _ _ _ B) as Hr. unfold mleaf_value.
+  destruct c as [id ord tail eidx|id big step pfx fc ch]; cbn [tree_id leaf_value].
+  2:{ destruct (node_inner o keys vals T r Hb Hr m vs Em Ev _ _ _ _ _ _ Hsub) as (ith & wsz & from & to & bm & plen & pfxb & Hgn & _).
+      rewrite Hgn. reflexivity. }
+  rewrite (node_leaf o keys vals T r Hb Hr m vs Em Ev id ord tail eidx Hsub).
+  pose proof (Hem T r Hr m Em) as Hm. pose proof (Hwf o keys vals T r Hb Hr) as W.
+  pose proof (leaves_fw _ _ _ _ m W (flat_nodes_ne r) Hm) as HL.
+  destruct (t_leaves T) as [elts|] eqn:El.
+  - destruct HL as [_ HL].
+    assert (~ Forall (fun e => e = []) elts) as Hnz.
+    { rewrite (bt_leaves _ _ _ _ _ _ B) in El. unfold select_leaves in El. destruct vals as [vs0|]; [|discriminate].
+      destruct (total_size _ =? 0) eqn:Ez; [discriminate|]. injection El as <-. apply Nat.eqb_neq in Ez.
+      intros Hall. apply Ez. unfold total_size. clear -Hall. induction Hall as [|x l Hx _ IH]; [reflexivity|].
+      cbn [map sum_list]. rewrite Hx. exact IH. }
+    destruct (HL Hnz) as [Hin _].
+    pose proof (flat_nodes_at o keys vals T r _ Hb Hr Hsub) as Hn. cbn [tree_id view_of_tree] in Hn.
+    assert (ord < length elts) as Hord.
+    { unfold flat_wf in W. apply andb_true_iff in W. destruct W as [W1 W2]. unfold leaves_ok in W2. apply Nat.eqb_eq in W2.
+      pose proof (wf_from_nth _ _ _ _ _ _ _ _ _ W1 Hn) as (_ & Ho & _). cbn in Ho.
+      pose proof (tails_of_nth _ _ _ _ _ Hn) as Ht. rewrite <- Ho in Ht.
+      rewrite W2. apply nth_error_Some. congruence. }
+    rewrite (Hin ord Hord).
+    destruct (nth_error elts ord) as [v|] eqn:En; [|apply nth_error_None in En; lia].
+    rewrite (nth_error_nth _ _ [] En). reflexivity.
+  - rewrite HL. reflexivity.
+Qed.
+
+Lemma mopt_leaf_value_ok o keys vals T r lidx m vs (c : option tree) :
+  Built o keys vals T r lidx -> build o keys vals = Ok T -> encode_trie T = Val m -> init_vars m = Val vs ->
+  (forall n, c = Some n -> In n (subtrees r)) ->
+  mopt_leaf_value m vs (oid c) = opt_leaf_value T c.
+Proof.
+  intros B Hb Em Ev Hc. destruct c as [n|]; [|reflexivity]. cbn [oid option_map mopt_leaf_value opt_leaf_value].
+  rewrite (mleaf_value_ok o keys vals T r lidx m vs n B Hb Em Ev (Hc n eq_refl)). reflexivity.
+Qed.
+
+Theorem msearch_search o keys vals T m vs q fuel :
+  build o keys vals = Ok T -> encode_trie T = Val m -> init_vars m = Val vs ->
+  trie_height T <= fuel ->
+  msearch (S fuel) m vs q = search T q.
+Proof.
+  intros Hb Em Ev Hf. unfold msearch. rewrite (msearchid_searchid o keys vals T m vs q fuel Hb Em Ev Hf). unfold bind.
+  destruct (build_ok o keys vals T Hb) as [[_ ->]|(r & lidx & B)]; [reflexivity|].
+  pose proof (SearchProofs.searchid_leaves o keys vals T r lidx B q) as HL. unfold search.
+  destruct (searchid T q) as [[l e] rr]. destruct HL as (H1 & H2 & H3).
+  rewrite (mopt_leaf_value_ok o keys vals T r lidx m vs l B Hb Em Ev (fun n Hn => proj1 (H1 n Hn))).
+  rewrite (mopt_leaf_value_ok o keys vals T r lidx m vs e B Hb Em Ev (fun n Hn => proj1 (H2 n Hn))).
+  rewrite (mopt_leaf_value_ok o keys vals T r lidx m vs rr B Hb Em Ev (fun n Hn => proj1 (H3 n Hn))).
+  reflexivity.
+Qed.
+
+Theorem mrangeget_rangeget o keys vals T m vs q fuel :
+  build o keys vals = Ok T -> encode_trie T = Val m -> init_vars m = Val vs ->
+  trie_height T <= fuel ->
+  mrangeget (S fuel) m vs q = rangeget T q.
+Proof.
+  intros Hb Em Ev Hf. unfold mrangeget. rewrite (msearchid_searchid o keys vals T m vs q fuel Hb Em Ev Hf). unfold bind.
+  destruct (build_ok o keys vals T Hb) as [[_ ->]|(r & lidx & B)]; [reflexivity|].
+  pose proof (SearchProofs.searchid_leaves o keys vals T r lidx B q) as HL. unfold rangeget.
+  destruct (searchid T q) as [[l e] rr]. destruct HL as (H1 & H2 & _).
+  destruct e as [c|]; cbn [oid option_map].
+  - rewrite (mleaf_value_ok o keys vals T r lidx m vs c B Hb Em Ev (proj1 (H2 c eq_refl))). reflexivity.
+  - destruct l as [c|]; cbn [oid option_map]; [|reflexivity].
+    rewrite (mleaf_value_ok o keys vals T r lidx m vs c B Hb Em Ev (proj1 (H1 c eq_refl))). reflexivity.
 Qed.
